@@ -1048,4 +1048,10 @@ unconditionally): a key loaded again after a removal gets its OLD dependencies r
 theorem C05_add_asset_always_sends :
     AmVerif.Gen.skel_hot_reloading_mod_HotReloader_add_asset = [.call .s_AddAsset, .call .s_send] := rfl
 
+/-- The reloader finds the entry it has to rewrite with the same `AssetMap::get` as every reader: a blocking read lock on the shard,
+so a concurrent insertion into that shard delays the look-up but never turns it into a miss (a missed look-up would skip the reload
+and consume the change). -/
+theorem C05_get_waits_for_the_shard :
+    AmVerif.Gen.skel_cache_AssetMap_for_AssetMap_get = [.call .s_get_shard, .acq .s_read 0, .call .s_get, .try_, .rel 0] := rfl
+
 end AmVerif.Props.C05
